@@ -353,6 +353,11 @@ func (jenny RawTypes) formatReferenceDefaults(ref ast.Type, value any) string {
 		return ""
 	}
 
+	// a map as default of a reference to something else than a struct
+	if !obj.Type.IsStruct() {
+		return ""
+	}
+
 	defaultValues := value.(map[string]interface{})
 	objectFields := obj.Type.AsStruct().Fields
 
